@@ -442,6 +442,28 @@ class Gen:
         self.opt(o, "externalDocs", self.external_docs, 0.2)
         if force in SECURITY_FLAVOURS:
             o.setdefault("securityDefinitions", {})["forced"] = self.security_scheme(force)
+        if o.get("securityDefinitions") and self.r.random() < 0.6:
+            # requirements that NAME the declared schemes (any scope list is schema-valid against any scheme type)
+            names = sorted(o["securityDefinitions"])
+            def link(reqs):
+                for i, rq in enumerate(reqs):
+                    reqs[i] = {self.r.choice(names): v for v in rq.values()} or {self.r.choice(names): [self.r.choice(["read", "write"])]}
+                if not reqs:
+                    reqs.append({self.r.choice(names): [self.r.choice(["read", "write", "admin"])]})
+                seen, keep = set(), []
+                for rq in reqs:          # the schema wants unique items
+                    k = json.dumps(rq, sort_keys=True)
+                    if k not in seen:
+                        seen.add(k)
+                        keep.append(rq)
+                reqs[:] = keep
+            if "security" in o or self.r.random() < 0.5:
+                link(o.setdefault("security", []))
+            for item in o.get("paths", {}).values():
+                if isinstance(item, dict):
+                    for op in item.values():
+                        if isinstance(op, dict) and "responses" in op and ("security" in op or self.r.random() < 0.3):
+                            link(op.setdefault("security", []))
         elif force in ("body", "query", "header", "path", "formData"):
             item = o["paths"].setdefault("/forced", {})
             op = item.setdefault("get", self.operation())
